@@ -417,4 +417,6 @@ def r_down(ctx):
 
 EXPLANATION = EXPLANATION + " (R7) a connection's status is set to DISCONNECTED / DISCONNECTING / DROPPED only at the six enumerated sites (liveness timeouts, explicit or peer disconnect, failed handshake): no per-message acknowledgement timeout takes a working link down."
 
+EXPLANATION = EXPLANATION + ' (R5, as built) the connect deadline is started by _sendClientHello only, and _sendClientHello is called by connect() only (call graph): a re-send of the hello from a timeout callback would restart the deadline and an unanswered attempt would never end.'
+
 RULES = [("C12.R1", r1), ("C12.R2", r2), ("C12.R3", r3), ("C12.R4", r4), ("C12.R5", r5), ("C12.R6", r_enum), ("C12.R7", r_down)]
